@@ -86,7 +86,8 @@ def run(ctx: Ctx):
                 "(header lines that echo arguments / host / absolute paths removed): the unmodified CLI with "
                 "-c in {1,2,3,5,8,16} and repetitions, each in a fresh interpreter with a different PYTHONHASHSEED "
                 "(molecules with an inverted part give first- and second-pass records on opposite strands), Program.run in process with a sequential map, and Program.run "
-                "with the real pathos pool steered into completion orders that TLC enumerated from Pool.tla. "
+                "with the real pathos pool steered into completion orders that TLC enumerated from Pool.tla; the same process then "
+                "aligns the molecules to another reference file with old and new worker counts (repetition in one process). "
                 "non-trivial = distinct run whose recorded executions were spread over >= 2 worker processes, or "
                 "a CLI run with -c > 1")
     ctx.assumptions = ["the '# coma', '# hostname', '# Reference Maps From', '# Query Maps From' header lines are excluded "
@@ -183,6 +184,26 @@ def run(ctx: Ctx):
             ctx.nontrivial((k, "steered-all", tuple(sched)))
         lines.append({"order": qids, "exec": [], "runs": runs_all})
         tags.append({"input": k, "mode": "all", "steered": True})
+        # the same long-lived process then aligns the molecules to ANOTHER reference file (same map ids, every label
+        # 5 kb further on) with the worker counts it has used before and a new one: a repetition must not inherit
+        # anything from an earlier run of the process
+        inp2 = dict(inp, refs=[dict(r, x=[v + 50000 for v in r["x"]], len=r["len"] + 50000,
+                                    bp=[v + 5000 for v in r["bp"]]) for r in inp["refs"]])
+        rp2, qp2 = pipecases.write_input(wd, inp2, "in2")
+        base2 = pipecases.run_once(wd, rp2, qp2, "again_seq", "all")
+        runs2 = [{"label": "other references, in-process sequential",
+                  "digest": [f"{n}:{d}" for n, d in sorted(base2["digest"].items())]}]
+        for c in (3, 2, 3):
+            out = os.path.join(wd, f"again{c}_{len(runs2)}.xmap")
+            status, res = pipeline.run_inprocess(pipeline.arg_list(rp2, qp2, out, "all", c), [], real_pool=True)
+            if status != "ok":
+                raise tlc.MachineryError(f"repeated in-process run failed: {status} {str(res)[-400:]}")
+            files = pipeline.output_files(out, "all")
+            runs2.append({"label": f"other references, real pool -c {c} in the process that ran the steered schedules",
+                          "digest": [f"{n}:{pipeline.body_digest(p)}" for n, p in sorted(files.items())]})
+            ctx.nontrivial((k, "again", c, len(runs2)))
+        lines.append({"order": qids, "exec": [], "runs": runs2})
+        tags.append({"input": k, "mode": "all", "repetition_in_one_process": True})
         pipeline.install_sequential_map()
         shutil.rmtree(wd, ignore_errors=True)
     verdicts, r = batch.validate("Trace_Pool", "Trace_Pool.cfg", ctx.workdir, lines)
